@@ -416,6 +416,24 @@ example : let s := (run sA (.parse C none)).2
       ((forward (.parse Bbad none) s).2.mods.any fun m => m.augBy.length == 2) = true :=
   ⟨Quiescent.ofB (by decide +kernel), AmendOk.ofB (by decide +kernel), by decide +kernel, by decide +kernel, by decide +kernel⟩
 
+/-- a module that is refused by the checks of the unres stage (a default value out of range), on its own -/
+def Bunres : ModSrc := { src "bbb" "" with faults := [(.unres, 7)] }
+
+/-- **F380.**  Without `Quiescent` (a pending explicit-compile batch) the compiled content is NOT restored, and not only because the
+    batch is dropped (F131): `aaa` was compiled by an earlier `ly_ctx_compile`; `bbb` and `ccc` (which augments `aaa`) are parsed;
+    the next `ly_ctx_compile` compiles the dependency set of `aaa` — with the augment of `ccc` — successfully, clears its
+    `to_compile` flags, and fails in the dependency set of `bbb`.  `lys_unres_glob_revert` removes `ccc` (its reference disappears
+    from `augmented_by` of `aaa`) but recompiles only flagged modules: `aaa` stays implemented with a compiled tree that contains
+    the nodes of the module that was freed (`lysc_node.module` dangles: heap-use-after-free for every reader). -/
+theorem stale_compiled_after_failed_compile :
+    ∃ (s : Ctx) (e : Nat) (s' : Ctx), run s .compile = (.error e, s') ∧
+      (s'.mods.all fun m => m.src.name != bs "ccc") = true ∧
+      (s'.mods.any fun m => m.implemented && m.augBy.isEmpty && (match m.compiled with
+        | some (_, d) => d.augBy == [bs "ccc"]
+        | none => false)) = true :=
+  let s := runs (ctx0 [A, Bunres, C] true) [.parse A none, .compile, .parse Bunres none, .parse C none]
+  ⟨s, 7, (run s .compile).2, run_eq_error (e := 6) (by decide +kernel), by decide +kernel, by decide +kernel⟩
+
 /-- the compiled content of every module is what compiling it now gives (top-level nodes with their augmenting / deviating
     modules, enabled features, features of used groupings): the state `lys_compile_depset_all` is to establish -/
 def Fresh (s : Ctx) : Prop := ∀ m ∈ s.mods, ∀ i d, m.compiled = some (i, d) → d = s.descOf m
